@@ -1,7 +1,8 @@
-import HdVerif.Proofs.SegEncode
+import HdVerif.Proofs.SegRoundtrip
 /-! # C01  Segmentation masks survive encode, write and read unchanged
 
-Property theorems only (helper lemmas: `Proofs/SegEncode.lean`, `Proofs/Bits.lean`, `Proofs/FrameAccess.lean`).
+Property theorems only (helper lemmas: `Proofs/SegEncode.lean`, `Proofs/SegCast.lean`, `Proofs/SegRoundtrip.lean`,
+`Proofs/Bits.lean`, `Proofs/FrameAccess.lean`).
 The model is `Model/SegEncode.lean`; the frame-loop guard, the carry arithmetic, the flush test, the trailing
 pad and the admission test on `max_fractional_value` are the definitions *regenerated from seg/sop.py on every
 run* (`Gen.segPackGuard`, `segCarryTake`, `segFlushGuard`, `segPadGuard`, `segPadByte`, `segMfvGuard`; T20), the
@@ -85,10 +86,175 @@ theorem storedFrames_spec (arr : Mask) (segs : List Nat) (t : SegType) (mfv : Na
             (cellFrame arr segs t mfv (planOrder arr omt order).1)) :=
   storedFrames_eq arr segs t mfv omt order hcell
 
-/-! Non-vacuity -/
+/-- (5) **What is stored per segment** (`_get_segment_pixel_array` on the array `_check_and_cast_pixel_array`
+returns), for every segmentation type, layout and dtype class: for a mask the constructor accepts, the pixels the
+loop stores for the `j`-th described segment in plane `p` -- for LABELMAP: the one-hot expansion of the stored label
+plane -- are the property's expectation computed from the *user's* mask (`expectedPlane`): the indicator of the
+segment (times `max_fractional_value` for FRACTIONAL) for bool/integer input, `round_half_even(q * mfv)` for
+fractional input. -/
+theorem segPlane_spec (segs : List Nat) (t : SegType) (mfv : Nat) (m arr : Mask) (ov : Overlap)
+    (hsegs : checkSegs t segs = .ok ()) (hcast : castMask segs t m = .ok (arr, ov))
+    (j : Nat) (hj : j < segs.length) (p : Nat) (mpl : Plane) (hmp : m.plane? p = some mpl) :
+    ∃ e, expectedPlane t mfv j segs[j] mpl = some e ∧
+      (t ≠ .labelmap → cellE arr segs t mfv (some segs[j]) p = .ok e) ∧
+      (t = .labelmap → ∃ lab, cellE arr segs t mfv none p = .ok lab ∧
+          lab.map (fun v => if v = segs[j] then 1 else 0) = e) := by
+  have hs := checkSegs_ok t segs hsegs
+  obtain ⟨hrel, _, _⟩ := castMask_rel segs t m arr ov hs hcast
+  exact cell_spec segs t mfv m arr hs hrel j hj p mpl hmp
+
+/-- (6) **C01_roundtrip.**  For every segmentation type (BINARY, FRACTIONAL, LABELMAP), every layout and dtype
+class of the mask (2-D/3-D label map or 4-D stack; bool/unsigned integers or floats), every
+`max_fractional_value`, either empty-frame policy (including masks that are entirely empty, and planes or single
+(segment, plane) frames that are empty), every frame size `rows*cols` (divisible by 8 or not, smaller than 8 or
+not), every plane order, and either transport (native 1/8/16 bit with the trailing pad as written, or an
+encapsulated syntax with *any* lossless codec): if the constructor accepts the input (`build … = .ok o`), then
+reading any list of source planes back -- in particular all of them in the order supplied -- succeeds and returns,
+for every requested plane `i` and every described segment `j`, exactly the property's expectation
+`expectedPlane` computed from the user's mask. -/
+theorem C01_roundtrip (codec : Option Codec) (hcodec : ∀ c, codec = some c → ∀ x, c.dec (c.enc x) = x)
+    (rows cols : Nat) (t : SegType) (segs : List Nat) (mfv : Nat) (omt : Bool) (order : List Nat) (m : Mask)
+    (hperm : order.Perm (List.range m.numPlanes))
+    (request : List Nat) (hreq : ∀ p ∈ request, p < m.numPlanes)
+    (o : SegObj) (hb : build codec rows cols t segs mfv omt order m = .ok o) :
+    ∃ out, readBySource codec o request true = .ok out ∧ out.length = request.length ∧
+      ∀ i (hi : i < request.length) (ho : i < out.length),
+        out[i].length = segs.length ∧
+        ∀ j (hj : j < segs.length) (hj' : j < out[i].length),
+          ∃ mpl, m.plane? request[i] = some mpl ∧ expectedPlane t mfv j segs[j] mpl = some out[i][j] := by
+  apply roundtrip_main codec hcodec rows cols t segs mfv omt order m ?_ ?_ ?_ request hreq o hb
+  · intro p hp; exact hperm.symm.subset (List.mem_range.mpr hp)
+  · intro p hp; exact List.mem_range.mp (hperm.subset hp)
+  · exact hperm.symm.nodup List.nodup_range
+
+/-- (6a) ... in particular for the source planes *in the order they were supplied*. -/
+theorem C01_roundtrip_supplied_order (codec : Option Codec) (hcodec : ∀ c, codec = some c → ∀ x, c.dec (c.enc x) = x)
+    (rows cols : Nat) (t : SegType) (segs : List Nat) (mfv : Nat) (omt : Bool) (order : List Nat) (m : Mask)
+    (hperm : order.Perm (List.range m.numPlanes))
+    (o : SegObj) (hb : build codec rows cols t segs mfv omt order m = .ok o) :
+    ∃ out, readBySource codec o (List.range m.numPlanes) true = .ok out ∧ out.length = m.numPlanes ∧
+      ∀ p (_ : p < m.numPlanes) (ho : p < out.length) j (hj : j < segs.length) (hj' : j < out[p].length),
+        ∃ mpl, m.plane? p = some mpl ∧ expectedPlane t mfv j segs[j] mpl = some out[p][j] := by
+  obtain ⟨out, h1, h2, h3⟩ := C01_roundtrip codec hcodec rows cols t segs mfv omt order m hperm
+    (List.range m.numPlanes) (fun p hp => List.mem_range.mp hp) o hb
+  refine ⟨out, h1, by simpa using h2, ?_⟩
+  intro p hp ho j hj hj'
+  have := (h3 p (by simpa using hp) ho).2 j hj hj'
+  simpa using this
+
+/-- (6b) The hypothesis of (6) is satisfiable exactly as expected: whenever the argument checks and
+`castMask` pass and the shapes fit (one plane order entry per plane, `rows*cols` pixels per plane), the
+constructor succeeds -- nothing after the checks can fail. -/
+theorem build_succeeds (codec : Option Codec) (rows cols : Nat) (t : SegType) (segs : List Nat) (mfv : Nat)
+    (omt : Bool) (order : List Nat) (m : Mask) (bits : Nat) (arr : Mask) (ov : Overlap)
+    (hca : checkArgs codec t segs mfv = .ok bits) (hcm : castMask segs t m = .ok (arr, ov))
+    (hperm : order.Perm (List.range m.numPlanes)) (hsz : ∀ sz ∈ m.planeSizes, sz = rows * cols) :
+    ∃ o, build codec rows cols t segs mfv omt order m = .ok o :=
+  build_total codec rows cols t segs mfv omt order m bits arr ov hca hcm
+    (by have := hperm.length_eq; simpa using this.symm) hsz
+    (fun p hp => List.mem_range.mp (hperm.subset hp))
+
+/-- (6c) Stored values fit the pixel depth, so nothing wraps on the way into `PixelData`: an accepted
+`max_fractional_value` is at most 255 (this is the translated admission test). -/
+theorem mfv_fits (mfv : Nat) (v : Int) (h : segMfvGuard (mfv : Int) = .ok v) : mfv ≤ 255 :=
+  segMfvGuard_ok mfv v h
+
+/-- (7) **Encoding workers.**  Results are gathered by position from the futures; whatever order the workers
+complete in (`done` = any log containing each task's result once), the gathered list is `tasks.map run`. -/
+theorem collect_order_independent {α β} (run : α → β) (tasks : List α) (done : List (Nat × β))
+    (hperm : done.Perm (tasks.zipIdx.map fun a => (a.2, run a.1))) :
+    collect tasks.length done = some (tasks.map run) := by
+  unfold collect
+  apply collect_aux run done ?_ tasks 0
+  · intro j hj
+    apply hperm.symm.subset
+    refine List.mem_map.mpr ⟨(tasks[j], j), ?_, by simp⟩
+    rw [List.mem_zipIdx_iff_getElem?]
+    simp [List.getElem?_eq_getElem hj]
+  · have : (done.map (·.1)).Perm ((tasks.zipIdx.map fun a => (a.2, run a.1)).map (·.1)) := hperm.map _
+    apply this.symm.nodup
+    simp only [List.map_map]
+    have e : (tasks.zipIdx.map ((fun x => x.1) ∘ fun a => (a.2, run a.1))) = List.range' 0 tasks.length := by
+      apply List.ext_getElem (by simp)
+      intro i h1 h2
+      simp
+    rw [e]
+    exact List.nodup_range'
+
+/-! (8) **Refusals**: masks outside the documented domain are refused, never stored. -/
+
+/-- a label-map style (3-D integer) mask with a pixel value that is neither background nor a described segment -/
+theorem castMask_rejects_undescribed (segs : List Nat) (t : SegType) (ps : List (List Nat)) (pl : List Nat) (v : Nat)
+    (hpl : pl ∈ ps) (hv : v ∈ pl) (hnot : v ∉ 0 :: segs) : castMask segs t (.intLabel ps) = .error .value :=
+  reject_undescribed segs t ps pl v hpl hv hnot
+
+/-- a stacked (4-D) integer mask that is not binary -/
+theorem castMask_rejects_nonbinary_stack (segs : List Nat) (t : SegType) (ps : List (List (List Nat)))
+    (pl : List (List Nat)) (ch : List Nat) (v : Nat) (hpl : pl ∈ ps) (hch : ch ∈ pl) (hv : v ∈ ch) (h2 : 1 < v) :
+    castMask segs t (.intStack ps) = .error .value :=
+  reject_nonbinary_stack segs t ps pl ch v hpl hch hv h2
+
+/-- a stacked mask whose last dimension is not the number of described segments -/
+theorem castMask_rejects_channel_count (segs : List Nat) (t : SegType) (ps : List (List (List Nat)))
+    (pl : List (List Nat)) (ch : List Nat) (hpl : pl ∈ ps) (hch : ch ∈ pl) (hne : ch.length ≠ segs.length) :
+    castMask segs t (.intStack ps) = .error .value :=
+  reject_channels segs t ps pl ch hpl hch hne
+
+/-- a float mask with a value outside [0, 1] (3-D and 4-D) -/
+theorem castMask_rejects_float_range (segs : List Nat) (t : SegType) :
+    (∀ (ps : List (List Rat)) pl x, pl ∈ ps → x ∈ pl → (x < 0 ∨ 1 < x) →
+      castMask segs t (.fltLabel ps) = .error .value) ∧
+    (∀ (ps : List (List (List Rat))) pl ch x, pl ∈ ps → ch ∈ pl → x ∈ ch → (x < 0 ∨ 1 < x) →
+      castMask segs t (.fltStack ps) = .error .value) :=
+  ⟨fun ps pl x h1 h2 h3 => reject_float_range_label segs t ps pl x h1 h2 h3,
+   fun ps pl ch x h1 h2 h3 h4 => reject_float_range_stack segs t ps pl ch x h1 h2 h3 h4⟩
+
+/-- a float mask with a genuinely fractional value for a BINARY or LABELMAP segmentation -/
+theorem castMask_rejects_fraction_for_binary (segs : List Nat) (t : SegType) (ht : t ≠ .fractional) :
+    (∀ (ps : List (List Rat)) pl x, pl ∈ ps → x ∈ pl → (0 < x ∧ x < 1) →
+      castMask segs t (.fltLabel ps) = .error .value) ∧
+    (∀ (ps : List (List (List Rat))) pl ch x, pl ∈ ps → ch ∈ pl → x ∈ ch → (0 < x ∧ x < 1) →
+      castMask segs t (.fltStack ps) = .error .value) :=
+  ⟨fun ps pl x h1 h2 h3 => reject_float_nonbinary_label segs t ht ps pl x h1 h2 h3,
+   fun ps pl ch x h1 h2 h3 h4 => reject_float_nonbinary_stack segs t ht ps pl ch x h1 h2 h3 h4⟩
+
+/-- overlapping stacked segments for a LABELMAP segmentation -/
+theorem castMask_rejects_overlap_labelmap (segs : List Nat) (ps : List (List (List Nat))) (pl : List (List Nat))
+    (ch : List Nat) (hpl : pl ∈ ps) (hch : ch ∈ pl)
+    (hlen : ∀ pl ∈ ps, ∀ ch ∈ pl, ch.length = segs.length) (h01 : ∀ pl ∈ ps, ∀ ch ∈ pl, ∀ v ∈ ch, v ≤ 1)
+    (hne : ∀ pl ∈ ps, pl ≠ []) (hps : ps ≠ []) (hsum : 1 < sumNat ch) :
+    castMask segs .labelmap (.intStack ps) = .error .value :=
+  reject_overlap_labelmap segs ps pl ch hpl hch hlen h01 hne hps hsum
+
+/-- `max_fractional_value` above 255 (translated admission test), and encapsulated syntaxes for BINARY -/
+theorem build_rejects_bad_options (rows cols : Nat) (segs : List Nat) (mfv : Nat) (omt : Bool)
+    (order : List Nat) (m : Mask) :
+    (∀ codec, 255 < mfv → ∃ e, build codec rows cols .fractional segs mfv omt order m = .error e) ∧
+    (∀ c : Codec, ∃ e, build (some c) rows cols .binary segs mfv omt order m = .error e) :=
+  ⟨fun codec h => reject_mfv codec rows cols segs mfv omt order m h,
+   fun c => reject_encapsulated_binary c rows cols segs mfv omt order m⟩
+
+/-! Non-vacuity: concrete non-trivial inputs satisfying the hypotheses. -/
+
+/-- three 2x3 BINARY frames (frame boundaries not byte aligned, frames smaller than a byte) -/
 example : nativeBits 2 3 [[true,false,false,false,false,true],[true,true,false,false,false,false],
     [false,true,false,true,false,true]] = .ok (pack [true,false,false,false,false,true,true,true,false,false,false,false,
       false,true,false,true,false,true]) :=
   packLoop_eq_pack_flatten 2 3 _ (by simp)
+
+/-- a LABELMAP built from a 4-D stack with described numbers 3 and 300 (16-bit), three planes in shuffled order,
+    empty frames omitted: the constructor accepts it (so `C01_roundtrip` applies to it) -/
+example : ∃ o, build none 1 2 .labelmap [3, 300] 255 true [2, 0, 1]
+    (.intStack [[[1,0],[0,1]], [[0,0],[0,0]], [[0,1],[0,1]]]) = .ok o :=
+  build_succeeds none 1 2 .labelmap [3, 300] 255 true [2, 0, 1] _ 16 (.intLabel [[3,300],[0,0],[300,300]]) .no
+    (by decide) (by decide) (by decide) (by decide)
+
+/-- a FRACTIONAL segmentation from float input with a tie (0.5 * 255 = 127.5 → 128) through a lossless codec -/
+example : ∃ o, build (some ⟨id, id⟩) 1 2 .fractional [1] 255 false [0]
+    (.fltLabel [[1/2, 1]]) = .ok o :=
+  build_succeeds (some ⟨id, id⟩) 1 2 .fractional [1] 255 false [0] _ 8 (.fltLabel [[1/2, 1]]) .no
+    (by decide) (by decide +kernel) (by decide) (by decide)
+
+example : quantise 255 (1/2) = 128 ∧ quantise 100 (1/8) = 12 ∧ quantise 100 (3/8) = 38 := by decide +kernel
 
 end HdVerif.C01
